@@ -21,7 +21,11 @@ def run(tier, seed):
     vlib.build_harness()
     res, out, scen, trace = sc.run_scenarios(tier, seed)
     n_traces, n_events, rej, owned = sc.judge(v, PROP, out, scen, trace, sc.C09_SIGS, sc.C09_CLAUSES)
+    # two-repository behaviours of System2.tla (commit / fetch / push / pull / merge / prune through the real CLI)
+    from props import system2_common
+    sys2cov, _ = system2_common.run(v, PROP, tier, seed)
     cov = {
+        "system2_behaviours": sys2cov,
         "states": res.distinct, "transitions": res.generated,
         "traces_validated_against_impl": n_traces - rej,
         "evaluations": out.total, "distinct_nontrivial": sum(c for k, c in out.classes.items()),
@@ -41,6 +45,9 @@ def run(tier, seed):
 def replay(path):
     with open(path) as f:
         doc = json.load(f)
+    if doc.get("engine") == "system2":
+        from props import system2_common
+        return system2_common.replay(PROP, path, doc)
     scn = doc.get("scenario")
     if not scn:
         raise vlib.Inconclusive("trace finding: rerun `bin/check %s`" % PROP)
